@@ -557,10 +557,20 @@ class Exec:
     def e_BoolOp(self, node, fr):
         is_and = isinstance(node.op, ast.And)
         if self.pure:
-            ts = [self.truth(self.eval(v, fr)) for v in node.values]
-            if all(isinstance(t, bool) for t in ts):
-                return all(ts) if is_and else any(ts)
-            zs = [z3.BoolVal(t) if isinstance(t, bool) else t for t in ts]
+            zs = []
+            for vn in node.values:
+                t = self.truth(self.eval(vn, fr))
+                if isinstance(t, bool):
+                    if is_and and not t:
+                        return False
+                    if (not is_and) and t:
+                        return True
+                    continue
+                zs.append(t)
+            if not zs:
+                return is_and
+            if len(zs) == 1:
+                return Sym(zs[0], "bool")
             return Sym(z3.And(*zs) if is_and else z3.Or(*zs), "bool")
         val = None
         for i, vn in enumerate(node.values):
